@@ -72,5 +72,40 @@ def main():
     print(f"10.10 regenerated: {len(findings_table()) - 2} findings, {len(rows) - 2} checks, {total:.0f} s")
 
 
-if __name__ == "__main__":
+if __name__ == "__main__" and "--thorough" not in __import__("sys").argv:
     main()
+
+
+def thorough_table(logs=("work/ev/summary-thorough.log", "work/ev/summary-thorough2.log")):
+    """section 10.9 from the summary lines of tools/regen_evidence.sh thorough (later logs override earlier ones)"""
+    rec = {}
+    for log in logs:
+        path = os.path.join(ROOT, log)
+        if not os.path.exists(path):
+            continue
+        for line in open(path):
+            m = re.match(r"(\w+) check_exit=(\d+) \w+ thorough: evaluations=(\d+) distinct=(\d+) states=(\d+) "
+                         r"transitions=(\d+) traces=(\d+) violations=(\d+) known=(\d+) wall=([\d.]+)s", line)
+            if m:
+                rec[m.group(1)] = m.groups()
+    rows = ["| Check | evaluations | distinct non-trivial | TLC states | traces bound to the code "
+            "| unlisted violations | known-finding cases | wall |", "|---|---|---|---|---|---|---|---|"]
+    for i in sorted(rec):
+        _, rc, ev, di, st, tr, tc, vi, kn, wall = rec[i]
+        rows.append(f"| {i} | {num(int(ev))} | {num(int(di))} | {num(int(st))} | {num(int(tc))} | {vi} | {kn} | {float(wall):.0f} s |")
+    path = os.path.join(ROOT, "DESIGN.md")
+    text = open(path).read().split("\n")
+    start = next(k for k, l in enumerate(text) if l.startswith("### 10.9"))
+    k = start
+    while not text[k].startswith("| Check"):
+        k += 1
+    e = k
+    while text[e].startswith("|"):
+        e += 1
+    text[k:e] = rows
+    open(path, "w").write("\n".join(text))
+    print(f"10.9 regenerated: {len(rec)} checks")
+
+
+if __name__ == "__main__" and "--thorough" in __import__("sys").argv:
+    thorough_table()
